@@ -67,6 +67,7 @@ func (c01) Plan(tier string, seed int64) []mon.Workload {
 		{Name: "malformed-table", N: int64(len(c01Holes) * len(c08BadV1)), Exhaustive: true},
 		{Name: "malformed-slots", N: n / 40},
 		{Name: "time-zones", N: int64(len(c12Times) * len(gen.Zones)), Exhaustive: true},
+		{Name: "extreme-index", N: int64(len(c01IdxObjs) * len(c01IdxVals) * len(c01IdxUses)), Exhaustive: true},
 	}
 }
 
@@ -168,12 +169,50 @@ func hostilePoint(c *mon.Ctx, variant int) (*input.Point, string) {
 			desc = append(desc, fmt.Sprintf("tag %s=%q", k, tags[k]))
 		}
 	}
+	// extreme integers of every Go integer type (InitPt converts them to int64)
+	fields["u63"] = uint64(1) << 63
+	fields["imin"] = int64(math.MinInt64)
+	fields["imax"] = int64(math.MaxInt64)
+	fields["umax"] = uint64(math.MaxUint64)
+	fields["fbig"] = float64(1e300)
+	fields["i32"] = int32(math.MinInt32)
+	fields["nan_f"] = math.NaN()
+	fields["big_list"] = "[1,2,3]"
 	pt := input.InitPt(&input.Point{}, "m", tags, fields, time.Unix(1700000000, 0))
 	return pt, strings.Join(desc, " ")
 }
 
+// extreme-index (exhaustive): every container shape x every extreme integer
+// (computed in the script or arriving from the point as int64 / uint64 /
+// float) x every way an integer meets a container: index read / write /
+// compound, nested, each slice bound and step, repetition and membership.
+var c01IdxObjs = []string{"o = [1, 2, 3]", "o = \"héllo\"", "o = {\"k\": [1, 2]}", "o = []", "o = \"\"", "o = [[1], [2, [3]]]", "o = big_list"}
+var c01IdxVals = []string{"-9223372036854775807 - 1", "9223372036854775807", "-9223372036854775807", "u63", "imin", "imax", "umax", "-4", "3", "2147483648", "-2147483649",
+	"fbig", "0 - imax - 1", "imin + 0", "-(imin)", "imin * 1", "4294967296", "i32", "nan_f"}
+var c01IdxUses = []string{"p(o[I])", "o[I] = 1", "o[I] += 1", "p(o[0][I])", "o[\"k\"][I] = 1", "p(o[I:])", "p(o[:I])", "p(o[::I])", "p(o[I:I:I])", "p(o[1][1][I])", "x = o[I]\np(x)",
+	"for e in o[I:] { p(e) }", "p(I in o)", "o[1][I] = 5", "p(o[I][I])", "p(o[-1:I:-1])"}
+
+func c01ExtremeIndex(i int64) []*gt.T {
+	use := c01IdxUses[int(i)%len(c01IdxUses)]
+	i /= int64(len(c01IdxUses))
+	val := c01IdxVals[int(i)%len(c01IdxVals)]
+	obj := c01IdxObjs[int(i)/len(c01IdxVals)]
+	text := obj + "\n" + strings.ReplaceAll(use, "I", "("+val+")") + "\np(\"after\")\n"
+	o := drive.Parse("extreme-index", text)
+	if o.Err != nil {
+		panic("c01: extreme-index program does not parse: " + text + ": " + o.Err.Error())
+	}
+	l, err := gt.FromStmts(o.Stmts)
+	if err != nil {
+		panic(err)
+	}
+	return gt.CloneStmts(l)
+}
+
 func (c01) build(c *mon.Ctx, workload string, i int64) (main []*gt.T, lib []*gt.T) {
 	switch workload {
+	case "extreme-index":
+		return c01ExtremeIndex(i), nil
 	case "time-zones":
 		// every timestamp spelling x every zone spelling (known, numeric,
 		// unknown, malformed), the conversion called twice in the script and
